@@ -64,7 +64,14 @@ TrRef ==
     /\ Trace[l].refh = Trace[l].h
     /\ UNCHANGED vars
 
-TraceNext == TrReset \/ TrWrite \/ TrOneShot \/ TrFinal \/ TrRef
+\* one ChecksumZero call on 2^32 - 1 .. 2^32 + 16 bytes: the digest is the one of the stream machine fed the same bytes
+\* (whose state and digest the neighbouring "final" events bind to the specification)
+TrBigOne ==
+    /\ IsEvent("bigone")
+    /\ Trace[l].h = Trace[l].refh
+    /\ UNCHANGED vars
+
+TraceNext == TrReset \/ TrWrite \/ TrOneShot \/ TrFinal \/ TrRef \/ TrBigOne
 
 TraceSpec == TraceInit /\ [][TraceNext]_tvars
 
